@@ -305,12 +305,12 @@ def build(cfg, inst, badkind, seed):
     if cfg["method"] != "None":
         kw["method"] = cfg["method"]
     if cfg["gf"]:
-        kw["options"] = dict(grad_free=True)
+        kw["options"] = _used_options(seed) if (int(seed) + len(cfg["nt"])) % 2 else dict(grad_free=True)
     if cfg["api"] == "sdeint_adjoint":
         if cfg["adj"] != "None":
             kw["adjoint_method"] = cfg["adj"]
         if cfg["agf"]:
-            kw["adjoint_options"] = dict(grad_free=True)
+            kw["adjoint_options"] = _used_options(seed) if (int(seed) + len(cfg["st"])) % 2 == 0 else dict(grad_free=True)
     rec = None
     if cfg["bm"] == "given":
         bm_b = BATCH
@@ -326,6 +326,31 @@ def build(cfg, inst, badkind, seed):
         rec = _Obs.Rec(base)
         kw["bm"] = rec
     return sde, y0, ts, kw, rec
+
+
+def _used_options(seed):
+    """dict(grad_free=True) as a caller holds it who REUSES one dict object across calls: it has already been passed
+    to an earlier, unrelated solve (derivative-free Milstein on an additive-noise SDE).  A call must not depend on,
+    nor change, what an options dict went through before: the dict still says grad_free=True afterwards."""
+    torch = _torch()
+    import torchsde
+    opts = dict(grad_free=True)
+
+    class _Add:
+        noise_type, sde_type = "additive", "ito"
+
+        def f(self, t, y):
+            return -y
+
+        def g(self, t, y):
+            return torch.ones(y.size(0), y.size(1), 1, dtype=y.dtype) * 0.5
+
+    y = torch.ones(2, 2, dtype=torch.float64)
+    bm = torchsde.BrownianInterval(t0=0.0, t1=0.25, size=(2, 1), dtype=torch.float64, entropy=int(seed) + 5)
+    with torch.no_grad():
+        torchsde.sdeint(_Add(), y, torch.tensor([0.0, 0.25], dtype=torch.float64), bm=bm, method="milstein", dt=0.125,
+                        options=opts)
+    return opts
 
 
 class _Watchdog(BaseException):
